@@ -333,6 +333,45 @@ def random_input(rng, nr, sl, jn, dim):
     return inp, ex
 
 
+def general_position_crystals(rng):
+    """low-symmetry crystals whose mobile atoms sit at GENERAL positions (site symmetry 1, non-empty vector basis): the site
+    dipoles then have components along strains that break the crystal symmetry.  yields (label, crys, chem)"""
+    from onsager import crystal
+    def pick(k):
+        vals = rng.sample([0.1, 0.15, 0.2, 0.3, 0.35, 0.4], k)
+        return vals
+    mono = np.array([[1., 0, 0], [0, rng.choice([1.1, 1.2]), 0], [rng.choice([.2, .3]), 0, rng.choice([1.2, 1.3])]]).T
+    ortho = np.diag([1., rng.choice([1.1, 1.15]), rng.choice([1.25, 1.3])])
+    x, y, z = pick(3)
+    yield "P2/m-general", crystal.Crystal(mono, [[np.array([x, y, z]), np.array([-x, y, -z]), np.array([-x, -y, -z]), np.array([x, -y, z])]]), 0
+    x, y, z = pick(3)
+    yield "Pm-general", crystal.Crystal(mono, [[np.array([.05, 0., .45])], [np.array([x, y, z]), np.array([x, -y, z])]]), 1
+    x, y, z = pick(3)
+    yield "P2-general", crystal.Crystal(mono, [[np.array([0., .45, 0.])], [np.array([x, y, z]), np.array([-x, y, -z])]]), 1
+    x, y, z = pick(3)
+    yield "Pmm2-general", crystal.Crystal(ortho, [[np.array([0., 0., .13])], [np.array([x, y, z]), np.array([-x, -y, z]), np.array([x, -y, z]), np.array([-x, y, z])]]), 1
+    x, y = pick(2)
+    yield "p2mm-general", crystal.Crystal(np.diag([1., 1.25]), [[np.array([x, y]), np.array([-x, y]), np.array([x, -y]), np.array([-x, -y])]]), 0
+    x, y = pick(2)
+    yield "pm-general", crystal.Crystal(np.diag([1., 1.25]), [[np.array([.5, .1])], [np.array([x, y]), np.array([-x, y])]]), 1
+
+
+def wide_network(crys, chem, maxjumps=140):
+    """first mid-shell cutoff whose network percolates in every direction (low-symmetry cells need several shells)"""
+    sh = gen.shells(crys, chem, nmax=2); sl = crys.sitelist(chem); N = len(crys.basis[chem])
+    for k in range(len(sh) - 1):
+        if sh[k + 1] - sh[k] < 0.02: continue
+        cut = 0.5 * (sh[k] + sh[k + 1]); jn = crys.jumpnetwork(chem, cut)
+        if sum(len(t) for t in jn) > maxjumps: return None
+        Dt = gen.exact_unitcell_D(N, jn, np.ones(N) / N, [[1.0] * len(t) for t in jn], crys.dim)
+        if np.linalg.eigvalsh(0.5 * (Dt + Dt.T)).min() > 1e-6: return cut, sl, jn
+    return None
+
+
+def strain_keeps_symmetry(crys, e):
+    return all(np.allclose(g.cartrot @ e @ g.cartrot.T, e, atol=1e-9) for g in crys.G)
+
+
 def midpoint_cut(crys, chem, cut):
     sh = gen.shells(crys, chem, nmax=3)
     below = [s for s in sh if s < cut]; above = [s for s in sh if s > cut]
@@ -367,10 +406,15 @@ def run(ck):
         for nm in fl[:ck.n(4, 6)]:
             crys, chem = gen.named(nm)
             yield nm + "~perm", gen.shuffled(crys, rng), chem
+        # always present: atoms at general positions of low-symmetry groups (symmetry-breaking strain components couple to the dipoles)
+        gp = list(general_position_crystals(rng))
+        gp = [g_ for g_ in gp if g_[0] in ("P2/m-general", "Pmm2-general")] + rng.sample([g_ for g_ in gp if g_[0] not in ("P2/m-general", "Pmm2-general")], ck.n(2, 4))
+        for lab, crys, chem in gp:
+            yield lab, (gen.shuffled(crys, rng) if rng.random() < 0.5 else crys), chem
         yield from gen.pool(rng, ncases, names=names, random_frac=0.45, maxatoms=3)
     for label, crys, chem in source():
         try:
-            net = gen.percolating_network(crys, chem, rng, maxjumps=40)
+            net = wide_network(crys, chem) if label.endswith("-general") else gen.percolating_network(crys, chem, rng, maxjumps=40)
         except Exception:
             skipped["construct-failed"] += 1; continue
         if net is None:
@@ -379,7 +423,7 @@ def run(ck):
         d = OnsagerCalc.Interstitial(crys, chem, sl, jn)
         dim = crys.dim
         interleaved = any(list(w) != list(range(min(w), min(w) + len(w))) for w in sl) or [w[0] for w in sl] != sorted(w[0] for w in sl)
-        kind = "%dD-N%d-W%d-NV%d-%s%s" % (dim, d.N, len(sl), d.NV, label.split("-")[0], "-interleaved" if interleaved else "")
+        kind = "%dD-N%d-W%d-NV%d-%s%s" % (dim, d.N, len(sl), d.NV, label if label.endswith("-general") else label.split("-")[0], "-interleaved" if interleaved else "")
         nr = ck.nprng(rng.randrange(1 << 30))
         inp, ex = random_input(rng, nr, sl, jn, dim)
         rep = {"crystal": repr(crys), "chem": chem, "cutoff": cut, **inp}
@@ -416,20 +460,24 @@ def run(ck):
         # ---- float envelope, strain (all components), FD on a subset
         pmax = max(max(np.abs(np.array(P)).max() for P in list(inp["dipole"]) + list(inp["dipoleT"])), 1.0)
         cutmid = midpoint_cut(crys, chem, cut) if nfd_strain > 0 else None
-        do_fd = cutmid is not None and nfd_strain > 0 and nj <= 30 and (d.NV > 0 or rng.random() < 0.4)
+        if label.endswith("-general"): cutmid = cut       # already a mid-shell cutoff
+        do_fd = cutmid is not None and nj <= 140 and (label.endswith("-general") or (nfd_strain > 0 and nj <= 30 and (d.NV > 0 or rng.random() < 0.4)))
         if nfd_strain > 0 and cutmid is None: skipped["fd-strain-no-gap"] += 1
-        if do_fd: nfd_strain -= 1
+        if do_fd and not label.endswith("-general"): nfd_strain -= 1
         for (c0, d0, e) in unit_strains(dim):
+            keeps = strain_keeps_symmetry(crys, e)
+            brk = "" if keeps else " [this strain component BREAKS the crystal symmetry]"
             _, dDe = envelope_float(d, jn, inp, [float(np.sum(Ps[i] * e)) for i in range(d.N)],
                                     [[float(np.sum(np.array(P) * e)) for P in row] for row in Pj], strain=e)
             errs = [np.abs(Dp[:, :, c0, d0] - dDe).max() / (scaleD * pmax)]
             if c0 != d0: errs.append(np.abs(Dp[:, :, d0, c0] - dDe).max() / (scaleD * pmax))
             e3 = max(errs)
             worst["float"] = max(worst["float"], e3)
-            ck.case(key=(label, round(cut, 5), inp["pre"], "strain", c0, d0), nontrivial=nj >= 2, kind="strain:" + kind)
+            ck.case(key=(label, round(cut, 5), inp["pre"], "strain", c0, d0), nontrivial=nj >= 2, kind="strain%s:%s" % ("" if keeps else "-breaking", kind))
             if not (e3 <= RTOL):
-                ck.violation("elastodiffusion tensor [:,:,%d,%d] differs from dD/d(strain) (envelope formula, exact corrector) by %.3g (rel)" % (c0, d0, e3),
-                             {**rep, "component": [c0, d0], "Dp": Dp[:, :, c0, d0].tolist(), "expected": dDe.tolist()}, key="c11-strain-envelope")
+                ck.violation("elastodiffusion tensor [:,:,%d,%d] differs from dD/d(strain) (envelope formula, exact corrector) by %.3g (rel)%s" % (c0, d0, e3, brk),
+                             {**rep, "component": [c0, d0], "Dp": Dp[:, :, c0, d0].tolist(), "expected": dDe.tolist()},
+                             key="c11-strain-envelope" if keeps else "c11-strain-symmetry-breaking")
             if do_fd:
                 try:
                     dfd = fd_strain(crys, chem, cutmid, e, d, jn, inp, Ps, Pj)
@@ -441,14 +489,18 @@ def run(ck):
                 if not (e4 <= FDTOL):
                     ck.violation("elastodiffusion tensor [:,:,%d,%d] differs from the finite-difference derivative of the diffusivity of the strained "
                                  "crystal by %.3g (rel)" % (c0, d0, e4), {**rep, "component": [c0, d0], "Dp": Dp[:, :, c0, d0].tolist(), "expected": dfd.tolist()},
-                                 key="c11-strain-fd")
+                                 key="c11-strain-fd" if keeps else "c11-strain-symmetry-breaking")
         # ---- exact dual-number cases
-        if d.N <= 4 and nj <= 26 and len(terms) < ck.n(45, 300):
+        if d.N <= 4 and nj <= (64 if label.endswith("-general") else 26) and len(terms) < ck.n(45, 300):
             tl, sk = exact_terms(crys, d, jn, ex, Ps, Pj, np.asarray(D), np.asarray(Db), np.asarray(Dp))
             skipped["exact-irrational"] += sk
             for what, (term, bits) in tl:
                 if bits > 2500: skipped["exact-too-large"] += 1; continue
-                terms.append(term); meta.append(dict(label=label, what=what, rep=rep, kind=kind, cut=cut, D=np.asarray(D).tolist(),
+                keeps_w = True
+                if what.startswith("strain"):
+                    a_, b_ = int(what[6]), int(what[7]); e_ = np.zeros((dim, dim)); e_[a_, b_] += .5; e_[b_, a_] += .5
+                    keeps_w = strain_keeps_symmetry(crys, e_)
+                terms.append(term); meta.append(dict(label=label, what=what, rep=rep, kind=kind, cut=cut, D=np.asarray(D).tolist(), keeps=keeps_w,
                                                      Db=np.asarray(Db).tolist(), bits=bits))
     try:
         codes = run_cases(ck, "dual", terms)
@@ -464,7 +516,7 @@ def run(ck):
         if c == 4: raise RuntimeError("harness dual certificate rejected by the model: %s %s" % (m["label"], m["what"]))
         if c != 0:
             ck.violation("exact dual-number model (%s): %s" % (m["what"], meaning.get(c, c)), {**m["rep"], "parameter": m["what"], "D": m["D"], "Db": m["Db"], "model_diagnosis": c},
-                         key="c11-exact-%s-%d" % ("beta" if m["what"] == "beta" else "strain", c))
+                         key="c11-strain-symmetry-breaking" if (c == 6 and not m["keeps"]) else "c11-exact-%s-%d" % ("beta" if m["what"] == "beta" else "strain", c))
     ck.extra["exact_cases"] = len(codes)
     ck.extra["traces_validated_against_impl"] = len(codes)
     ck.extra["skipped"] = skipped
